@@ -460,7 +460,15 @@ func (s *c11State) register(owner string, tg int, target string, wn int, when st
 	if direct {
 		name += "/records-it-with-AddError-on-what-it-was-handed"
 	}
-	err := registerCB(b.T, po, wn, tg, &c11CB{s, name, zero, direct})
+	via := b.T
+	if owner == "detached" && c.Bool() {
+		// a detached row belongs to no table yet: the registration may just as well be made through another table
+		// (a builder or template table); the callbacks stay with the row
+		via = tabular.New()
+		name += "/registered-through-another-table"
+		s.extra = appendUnique(s.extra, "registered_through_another_table")
+	}
+	err := registerCB(via, po, wn, tg, &c11CB{s, name, zero, direct})
 	if err != nil {
 		c.Logf("  -> refused: %v", err)
 		return
@@ -472,7 +480,7 @@ func (s *c11State) register(owner string, tg int, target string, wn int, when st
 	if c.Bool() {
 		name2 := name + "#2"
 		c.Logf("t.RegisterPropertyCallback(%s, %s, %s, failing %s)   // same slot again", owner, when, target, name2)
-		if err := registerCB(b.T, po, wn, tg, &c11CB{s, name2, zero, direct}); err == nil {
+		if err := registerCB(via, po, wn, tg, &c11CB{s, name2, zero, direct}); err == nil {
 			s.regDesc = append(s.regDesc, name2)
 			s.extra = appendUnique(s.extra, "two_failing_callbacks_on_one_slot")
 		}
